@@ -1,7 +1,7 @@
 (* C12 property theorems (statements only).  Model: C03/Model.v (matcher, MapAdapter.match,
    make_redirect_url, quote, urlunsplit) + C12/Model.v (url_root, on_host). *)
 From Coq Require Import ZArith.
-From Wz Require Import lib.Bytes C03.Gen C03.Trie C03.Model C03.Proofs C12.Model C12.Proofs.
+From Wz Require Import lib.Bytes C03.Gen C03.Trie C03.Model C03.Proofs C04.Model C12.Model C12.Proofs.
 Open Scope N_scope.
 
 (* every redirect MapAdapter.match issues for a missing trailing slash or for merged slashes is
@@ -16,8 +16,8 @@ Theorem C12_on_host_path_redirects : forall h m a p me u,
   on_host m a None u
   \/ exists r v, In r (m_rules m) /\ admits m r (request_parts m a p) = ADirect _ v
        /\ m_redirect_defaults m = true
-       /\ (r_alias r = true /\ u = h_alias h m a (upper me) r (dict_update v (r_defaults r))
-           \/ h_default h m a (upper me) r (dict_update v (r_defaults r)) = Some u).
+       /\ (r_alias r = true /\ h_alias h m a (upper me) r (dict_update v (r_defaults r)) = BOk u
+           \/ h_default h m a (upper me) r (dict_update v (r_defaults r)) = BOk (Some u)).
 Proof. exact on_host_or_builder. Qed.
 Print Assumptions C12_on_host_path_redirects.
 
@@ -38,3 +38,35 @@ Theorem C12_make_redirect_url : forall m a path dp,
   make_redirect_url m a path dp = url_root m a dp ++ lstrip_slash path ++ query_suffix a.
 Proof. exact make_redirect_url_shape. Qed.
 Print Assumptions C12_make_redirect_url.
+
+(* C12_on_host at full strength, for MapAdapter.match with everything the router does on its own
+   (router_match: defaults and alias canonicalisation through the URL builder of C04/Model.v):
+   a redirect is either a slash / merged-slash redirect, on the bound scheme, host and script root, or the
+   canonical URL the builder produced for a rule of the map with the endpoint of the matched rule:
+     defaults: url_root(scheme://host(dp)/script-root/) ++ built path without leading slashes ++ ?query
+     alias:    alias_root(http(s)://host(dp) + script_name) ++ built path without leading slashes ++ ?query
+   where dp is the domain part built for that rule (its subdomain / host pattern filled with the matched values). *)
+Theorem C12_on_host : forall m a p me u,
+  has (eff_scheme a) uses_netloc = true ->
+  router_match m a p me = RedirectTo u ->
+  on_host m a None u
+  \/ exists r v, In r (m_rules m) /\ admits m r (request_parts m a p) = ADirect _ v
+       /\ builder_target m a (r_endpoint r) u.
+Proof. exact router_on_host. Qed.
+Print Assumptions C12_on_host.
+
+Example C12_defaults_example :
+  router_match (mk_map [ex_all; ex_page]) ex_adapter_app ([47] ++ ALL ++ [47] ++ PAGE ++ [47; 49]) GET
+  = RedirectTo ([104; 116; 116; 112; 115; 58; 47; 47] ++ a_server ex_adapter ++ [47; 97; 112; 112; 47] ++ ALL ++ [47; 63; 113; 61; 49])
+  /\ router_match (mk_map [ex_all; ex_page]) ex_adapter_app ([47] ++ ALL ++ [47] ++ PAGE ++ [47; 50]) GET
+     = Match ex_page [(PAGE, VInt 2)].
+Proof. exact ex_defaults. Qed.
+Print Assumptions C12_defaults_example.
+
+(* without host matching, every host the router puts into a redirect is the bound server name,
+   alone or behind a subdomain label - never text from the request path in authority position *)
+Theorem C12_host_is_bound_server : forall m a dp,
+  m_host_matching m = false ->
+  exists sub, get_host m a dp = (if is_nil sub then [] else sub ++ [DOT]) ++ a_server a.
+Proof. exact get_host_bound. Qed.
+Print Assumptions C12_host_is_bound_server.
